@@ -438,6 +438,9 @@ PROPS = {
               # follower in its group, one-shot fault): everybody gets his own result
               dict(driver="sched", args=["--all"], quick=1, thorough=4, trace=CONC_TRACE,
                    final_rc3=True),
+              # two-entry caches: every compaction input and every read has to open its table
+              dict(driver="fault", args=["--nops", "24", "--positions", "60", "--small-caches"],
+                   quick=3, thorough=30, one_per_proc=True),
               # read calls as faultable operations too (beyond the list in the quantifier)
               dict(driver="fault", args=["--nops", "18", "--positions", "60", "--read-faults"],
                    quick=3, thorough=30, one_per_proc=True)]),
@@ -755,7 +758,8 @@ def finish(prop, tier, seed, t0, design, switches, recs, vruns, rejects, tstates
                        "nops": wl[0].get("nops", 22) if wl else 22,
                        "large": wl[0].get("large", False) if wl else False,
                        "reopen_heavy": wl[0].get("reopen_heavy", False) if wl else False,
-                       "read_faults": wl[0].get("read_faults", False) if wl else False},
+                       "read_faults": wl[0].get("read_faults", False) if wl else False,
+                       "small_caches": wl[0].get("small_caches", False) if wl else False},
                       open(dst, "w"))
         else:
             try:
@@ -854,6 +858,8 @@ def replay(path):
             cmd.append("--reopen-heavy")
         if rp.get("read_faults"):
             cmd.append("--read-faults")
+        if rp.get("small_caches"):
+            cmd.append("--small-caches")
         r = sh(cmd, timeout=900)
     elif rp["driver"] == "sched" and rp.get("schedule"):
         os.makedirs(outdir, exist_ok=True)
